@@ -7,8 +7,9 @@ void Verdict::absorb (const Result &r)
 	io_steps += r.io.steps ; api_calls += r.api_calls ; execs ++ ;
 	if (r.clock_span > clock_span) clock_span = r.clock_span ;
 	hash = (hash ^ r.trace) * 1099511628211ULL ;
-	for (auto &t : r.transcript) hash = (hash ^ transcript_hash (t)) * 1099511628211ULL ;
-	for (auto &kv : r.stores) { hash = (hash ^ fnv1a (kv.second.data (), kv.second.size ())) * 1099511628211ULL ; }
+	parts.push_back (r.trace) ;
+	for (auto &t : r.transcript) { hash = (hash ^ transcript_hash (t)) * 1099511628211ULL ; parts.push_back (transcript_hash (t)) ; }
+	for (auto &kv : r.stores) { hash = (hash ^ fnv1a (kv.second.data (), kv.second.size ())) * 1099511628211ULL ; parts.push_back (fnv1a (kv.second.data (), kv.second.size ())) ; }
 	for (auto &v : r.viols) hash = fnv1a (v.clause.data (), v.clause.size (), hash) ;
 }
 
@@ -19,6 +20,8 @@ std::string make_sig_raw (const std::string &prop, const std::string &clause, co
 	{	cont = fmt.substr (0, a) ;
 		size_t b = fmt.find ('/', a + 1) ;
 		codec = fmt.substr (a + 1, b == std::string::npos ? std::string::npos : b - a - 1) ;
+		// a big-endian WAV is a different on-disk dialect (RIFX) with its own header writers
+		if (cont == "WAV" && b != std::string::npos && fmt.compare (b + 1, std::string::npos, "BIG") == 0) cont = "WAV(RIFX)" ;
 	}
 	return prop + "." + clause + "|" + cont + "|" + codec + "|" + (route.empty () ? "-" : route) + "|" + (fault.empty () ? "none" : fault) + "|" + (disc.empty () ? "-" : disc) ;
 }
